@@ -399,7 +399,11 @@ structure SimT where
   code : Inst
   noise : Inst
   decoder : Inst
+  /-- `error_rate` of a `DirectSimulation`; the descending list `error_rates` of a
+      `SplittingSimulation` -/
   errorRate : PV
+  /-- built by the `method == 'splitting'` branch -/
+  splitting : Bool
   deriving Repr
 
 /-- keyword arguments `DirectSimulation.__init__` accepts besides the positional ones and
@@ -416,7 +420,37 @@ def buildSim (mparams : PV) (t : Inst × Inst × Block × PV) : Except Err SimT 
   | .ok dec =>
     match methodParamsOk mparams with
     | .error e => .error e
-    | .ok () => .ok ⟨t.1, t.2.1, dec, t.2.2.2⟩
+    | .ok () => .ok ⟨t.1, t.2.1, dec, t.2.2.2, false⟩
+
+/-- keyword arguments of `SplittingSimulation.__init__` that `method_params` may / must carry -/
+def splittingParamsOk : PV → Except Err Unit
+  | .dict d =>
+    if d.all (fun e => ["n_init_runs", "start_run", "compress", "rng"].contains e.1) &&
+       d.any (fun e => e.1 == "n_init_runs") then .ok () else .error .type
+  | _ => .error .type
+
+/-- `np.sort(error_rates)[::-1]` -/
+def ratesDescending (er : List PV) : Except Err PV :=
+  match er.mapM PV.toRat? with
+  | none => .error .type
+  | some qs => .ok (.list ((qs.mergeSort fun a b => decide (b ≤ a)).map PV.num))
+
+/-- loop body of the splitting method: one decoder per error rate (the first one is recorded),
+    then `SplittingSimulation(code, error_model, decoders, error_rates, **method_params)` -/
+def buildSplit (mparams : PV) (er : List PV) (t : Inst × Inst × Block) : Except Err SimT :=
+  match instDecoder t.2.2 with
+  | .error e => .error e
+  | .ok dec =>
+    match splittingParamsOk mparams with
+    | .error e => .error e
+    | .ok () =>
+      match ratesDescending er with
+      | .error e => .error e
+      | .ok rates => .ok ⟨t.1, t.2.1, dec, rates, true⟩
+
+/-- `itertools.product(as, bs, cs)` -/
+def product3 {α β γ : Type} (as : List α) (bs : List β) (cs : List γ) : List (α × β × γ) :=
+  as.flatMap fun a => bs.flatMap fun b => cs.map fun c => (a, b, c)
 
 /-- `data['ranges']['method']['name']`, `['parameters']` (default: direct, `{}`) -/
 def methodOf (r : Ranges) : Except Err (String × PV) :=
@@ -444,8 +478,8 @@ def simsOfRanges (r : Ranges) : Except Err (List SimT) :=
         let instances := product4 codes noises dr er
         if method == "direct" then mapE (buildSim mparams) instances
         else if method == "splitting" then
-          -- `for code, error_model, decoder_dict in instances` on 4-tuples
-          if instances.isEmpty then .ok [] else .error .value
+          -- one simulation per (code, noise, decoder), each with the whole list of rates
+          mapE (buildSplit mparams er) (product3 codes noises dr)
         else .ok []
 
 def Run.getCode (r : Run) : Except Err Inst :=
